@@ -610,7 +610,12 @@ func main() {
 	if *fOne >= 0 {
 		bin := build(pc.Race)
 		cmd := exec.Command(bin, "-test.run", "^TestSim$", "-test.timeout", "0", "-prop", pc.ID, "-base", strconv.FormatUint(base, 10),
-			"-from", strconv.Itoa(*fOne), "-to", strconv.Itoa(*fOne+1), "-tier", *fTier, "-dump", "-scratch", filepath.Join(scratch, "fs"))
+			"-from", strconv.Itoa(*fOne), "-to", strconv.Itoa(*fOne+1), "-tier", *fTier, "-scratch", filepath.Join(scratch, "fs"))
+		if extra := os.Getenv("VERIF_ONE_ARGS"); extra != "" {
+			cmd.Args = append(cmd.Args, strings.Fields(extra)...)
+		} else {
+			cmd.Args = append(cmd.Args, "-dump")
+		}
 		cmd.Dir = scratch
 		cmd.Env = env()
 		cmd.Stdout, cmd.Stderr = os.Stdout, os.Stderr
